@@ -225,6 +225,99 @@ def check(run):
                     stats["hover_agree"] += 1
                 else:
                     wits.append({"kind": "hover on a binder reports %r, its type is %r" % (r.get("ok", r.get("err")), ty), "text": text, "line": q[1], "col": q[2]})
+        # ---- 2c. every item offered after `x.` type-checks when inserted (receivers of several types and instances) ----
+        INSERT_BASE = """struct Bx[T] { v: T, n: int32 }
+impl[T] Bx[T] {
+    fn get(self: Bx[T]) -> T { self.v }
+    fn cnt(self: Bx[T], k: int32) -> int32 { self.n + k }
+}
+impl Bx[int32] { fn get_int(self: Bx[int32]) -> int32 { self.v } }
+impl Bx[string] { fn get_str(self: Bx[string], pre: string) -> string { pre + self.v } }
+impl Bx[Bx[int32]] { fn inner_n(self: Bx[Bx[int32]]) -> int32 { self.v.n } }
+struct Pt { x: int32, y: int32 }
+impl Pt { fn norm(self: Pt, k: int32, b: bool) -> int32 { self.x + k } fn mk() -> Pt { Pt { x: 1, y: 2 } } }
+enum Sh { Ci(int32), Sq }
+impl Sh { fn area(self: Sh) -> int32 { 1 } }
+trait Nm { fn name(Self) -> string; }
+impl Nm for Pt { fn name(self: Pt) -> string { "pt" } }
+impl Nm for Bx[int32] { fn name(self: Bx[int32]) -> string { "bx" } }
+impl Nm for int32 { fn name(self: int32) -> string { "i" } }
+fn main() {
+    let bi: Bx[int32] = Bx { v: 1, n: 2 };
+    let bs: Bx[string] = Bx { v: "s", n: 2 };
+    let bb: Bx[bool] = Bx { v: true, n: 2 };
+    let bx: Bx[Bx[int32]] = Bx { v: bi, n: 3 };
+    let p: Pt = Pt::mk();
+    let sh: Sh = Sq;
+    let tp = (1, p);
+    let z = RECV.PREFIX
+    ()
+}
+"""
+        ARG = {"int32": "1", "string": '"s"', "bool": "true"}
+        icases, imeta = [], []
+        for recv in ("bi", "bs", "bb", "bx", "p", "sh", "bi.v", "bx.v", "tp.1"):
+            for prefix in ("", "g", "n"):
+                tt = INSERT_BASE.replace("RECV", recv).replace("PREFIX", prefix)
+                off = tt.index("let z = %s.%s" % (recv, prefix)) + len("let z = %s.%s" % (recv, prefix))
+                icases.append((tt, [("dot", tt.count("\n", 0, off), off - (tt.rfind("\n", 0, off) + 1))]))
+                imeta.append((recv, prefix))
+        ins_srcs, ins_meta = [], []
+        for (tt, qs), (recv, prefix), rs in zip(icases, imeta, run_queries(icases)):
+            r = rs[0]
+            if "panic" in r:
+                wits.append({"kind": "dot completion panicked: " + r["panic"][:200], "text": tt, "line": qs[0][1], "col": qs[0][2]})
+                continue
+            for it in r.get("items", []):
+                if it[1] == "Field":
+                    use = "%s.%s" % (recv, it[0])
+                else:
+                    m = re.match(r"\((.*)\) -> ", it[2] or "")
+                    if not m:
+                        continue
+                    depth, cur, params = 0, "", []
+                    for ch in m.group(1):
+                        if ch in "[(":
+                            depth += 1
+                        elif ch in "])":
+                            depth -= 1
+                        if ch == "," and depth == 0:
+                            params.append(cur.strip())
+                            cur = ""
+                        else:
+                            cur += ch
+                    params.append(cur.strip())
+                    if any(a not in ARG for a in params[1:]):
+                        continue
+                    use = "%s.%s(%s)" % (recv, it[0], ", ".join(ARG[a] for a in params[1:]))
+                ins_srcs.append(tt.replace("let z = %s.%s" % (recv, prefix), "let z = %s;" % use))
+                ins_meta.append((recv, prefix, it))
+        stats["inserted_items"] = len(ins_srcs)
+        if ins_srcs:
+            iroot = os.path.join(vlib.BUILD, "tmp", "c20ins")
+            shutil.rmtree(iroot, ignore_errors=True)
+            ipaths = []
+            for i, src_ in enumerate(ins_srcs):
+                d = os.path.join(iroot, "i%04d" % i)
+                os.makedirs(d)
+                with open(os.path.join(d, "main.gom"), "w") as f:
+                    f.write(src_)
+                ipaths.append(os.path.join(d, "main.gom"))
+            ires = vlib.run_harness("compile", [{"path": p_, "timeout_ms": 20000} for p_ in ipaths], shards=vlib.NCPU)
+            stats["inserted_items_accepted"] = 0
+            known_recv = {rc: k_["id"] for k_ in run.known if k_["replay"]["kind"] == "completion-insert" for rc in k_["replay"]["receivers"]}
+            known_hits = {}
+            for src_, (recv, prefix, it), r in zip(ins_srcs, ins_meta, ires):
+                if r.get("ok"):
+                    stats["inserted_items_accepted"] += 1
+                elif recv in known_recv and "panic" not in r:
+                    known_hits.setdefault(known_recv[recv], []).append("%s.%s" % (recv, it[0]))
+                elif r.get("error_kind") in ("typer", "lower", "parser") or "panic" in r:
+                    wits.append({"kind": "the completion item %r offered after `%s.%s` does not type-check when inserted: %s" % (it[0], recv, prefix, "; ".join(d_["message"] for d_ in (r.get("diagnostics") or []))[:200] or r.get("panic", "")[:200]), "text": src_})
+            shutil.rmtree(iroot, ignore_errors=True)
+            for k_ in run.known:
+                if k_["id"] in known_hits:
+                    run.known_finding(k_["id"], "%s: %s (%s)" % (k_["id"], k_["what"], ", ".join(known_hits[k_["id"]][:4])))
         # ---- 3. completions name things that exist ------------------------------------------------------
         ccases, cinfo = [], []
         for _ in range(30 if run.tier == "quick" else 400):
